@@ -18,15 +18,22 @@ package main
 // with the device id constant throughout.  Observed at the version / uuid files and the advertised c#.
 
 import (
+	"context"
+	"encoding/json"
 	"fmt"
 	"os"
+	"os/exec"
+	"path/filepath"
 	"strconv"
 	"sync"
 	"sync/atomic"
+	"syscall"
+	"time"
 
 	"github.com/brutella/hc"
 	"github.com/brutella/hc/accessory"
 	"github.com/brutella/hc/characteristic"
+	"github.com/brutella/hc/verifhook"
 
 	"verif/harness/app"
 	"verif/vf"
@@ -176,4 +183,190 @@ func structureSweep(r *vf.Run) {
 	r.Count("sweep_restarts_without_bump", int(done)*3)
 	r.Count("sweep_bumps_observed", int(bumps))
 	r.Floor("sweep_structures_completed", int(done), n*99/100)
+}
+
+// ---------------------------------------------------------------- killed starts
+//
+// A start that is killed while it stores identity, configuration number and fingerprint is part of real restart
+// histories.  The kill is produced in a child process at the storage.set.enter hook point (the process sends
+// itself SIGKILL before the N-th write of the start), for every N the start has.  What the next complete
+// start must achieve is judged in the direction that matters to controllers and leaves the implementation
+// its freedom: after (complete start with S, killed start with S', complete start with S') the
+// configuration number is larger than it was with S (by one, or by two when the kill separated the number
+// from the fingerprint) and then stays; after a killed start with the unchanged S it has not moved; the
+// device id never changes.
+
+type killSpec struct {
+	Dir     string    `json:"dir"`
+	Spec    sweepSpec `json:"structure"`
+	Variant bool      `json:"variant"`
+	KillAt  int       `json:"kill_before_write"`
+}
+
+func killChildMain(arg string) {
+	var ks killSpec
+	b, err := os.ReadFile(arg)
+	if err == nil {
+		err = json.Unmarshal(b, &ks)
+	}
+	if err != nil {
+		fmt.Println("killchild:", err)
+		os.Exit(3)
+	}
+	var n int32
+	verifhook.Install(func(point string) {
+		if point == "storage.set.enter" && int(atomic.AddInt32(&n, 1)) == ks.KillAt {
+			syscall.Kill(os.Getpid(), syscall.SIGKILL)
+			select {}
+		}
+	})
+	_, err = hc.NewIPTransport(hc.Config{StoragePath: ks.Dir, Pin: "00102003", Port: "0"}, sweepAccessory(ks.Spec, ks.Variant, 5))
+	if err != nil {
+		fmt.Println("killchild: NewIPTransport:", err)
+		os.Exit(4)
+	}
+	fmt.Printf("completed writes=%d\n", atomic.LoadInt32(&n))
+	os.Exit(0)
+}
+
+// killedStart returns "killed", "completed" (the start has fewer writes than KillAt) or an error text.
+func killedStart(ks killSpec, tag string) string {
+	bin := os.Getenv("VERIF_BIN")
+	if bin == "" {
+		bin = os.Args[0]
+	}
+	f := filepath.Join(base, "kill-"+tag+".json")
+	b, _ := json.Marshal(ks)
+	os.WriteFile(f, b, 0o644)
+	defer os.Remove(f)
+	ctx, cancel := context.WithTimeout(context.Background(), 2*time.Minute)
+	defer cancel()
+	cmd := exec.CommandContext(ctx, bin, "-killchild", f)
+	out, err := cmd.CombinedOutput()
+	if err == nil {
+		return "completed"
+	}
+	if ee, ok := err.(*exec.ExitError); ok {
+		if ws, ok := ee.Sys().(syscall.WaitStatus); ok && ws.Signaled() && ws.Signal() == syscall.SIGKILL && ctx.Err() == nil {
+			return "killed"
+		}
+	}
+	return fmt.Sprintf("child failed: %v: %s", err, trimTo(string(out), 300))
+}
+
+func completeStart(dir string, s sweepSpec, variant bool, values int) (version, uuid string, err error) {
+	_, pt := vf.Recover(func() {
+		_, err = hc.NewIPTransport(hc.Config{StoragePath: dir, Pin: "00102003", Port: "0"}, sweepAccessory(s, variant, values))
+	})
+	if pt != "" {
+		return "", "", fmt.Errorf("NewIPTransport panics: %s", trimTo(pt, 300))
+	}
+	return readFile(dir, "version"), readFile(dir, "uuid"), err
+}
+
+func killedStarts(r *vf.Run) {
+	n := r.Pick(24, 400)
+	rnd := r.RandN("c20-kill", 0)
+	salt := rnd.Intn(1 << 30)
+	type job struct {
+		s       sweepSpec
+		changed bool
+		killAt  int
+	}
+	var jobs []job
+	for i := 0; i < n; i++ {
+		s := sweepSpec{N: i, Desc: fmt.Sprintf("kill %d/%d", salt, i), Extra: i % 3, Kind: i}
+		for k := 1; k <= 4; k++ {
+			jobs = append(jobs, job{s, true, k})
+			if i%4 == 0 {
+				jobs = append(jobs, job{s, false, k})
+			}
+		}
+	}
+	var wg sync.WaitGroup
+	ch := make(chan int)
+	for w := 0; w < 16; w++ {
+		wg.Add(1)
+		go func() {
+			defer wg.Done()
+			for ji := range ch {
+				j := jobs[ji]
+				r.Eval()
+				dir := app.ScratchDir(base, "kill")
+				func() {
+					defer os.RemoveAll(dir)
+					hist := []string{}
+					fail := func(sig, what string) {
+						r.Violation(sig, fmt.Sprintf("structure %d (%q), kill before write %d of the start: %s", j.s.N, j.s.Desc, j.killAt, what),
+							map[string]interface{}{"structure": j.s, "structure_changed_in_the_killed_start": j.changed, "kill_before_write": j.killAt, "history": hist})
+					}
+					v1, id1, err := completeStart(dir, j.s, false, 0)
+					hist = append(hist, fmt.Sprintf("complete start with S: c#=%s id=%s err=%v", v1, id1, err))
+					if err != nil {
+						fail("kill:start-fails", err.Error())
+						return
+					}
+					old, perr := strconv.ParseInt(v1, 10, 64)
+					if perr != nil {
+						return // reported by the sweep
+					}
+					how := killedStart(killSpec{Dir: dir, Spec: j.s, Variant: j.changed, KillAt: j.killAt}, fmt.Sprint(ji))
+					hist = append(hist, fmt.Sprintf("start with %s killed before write %d: %s; files now: version=%q configHash=%x", map[bool]string{true: "S'", false: "S"}[j.changed], j.killAt, how, readFile(dir, "version"), readFile(dir, "configHash")))
+					switch how {
+					case "killed":
+						r.Count("killed_starts", 1)
+						r.Distinct("kill_point", fmt.Sprint(j.killAt))
+					case "completed":
+						r.Count("kill_point_beyond_the_writes_of_a_start", 1)
+					default:
+						r.Count("killed_start_child_failures", 1)
+						r.Distinct("killed_start_child_failure", how)
+						return
+					}
+					v3, id3, err := completeStart(dir, j.s, j.changed, 1)
+					hist = append(hist, fmt.Sprintf("complete start: c#=%s id=%s err=%v", v3, id3, err))
+					if err != nil {
+						fail("kill:start-fails-after-killed-start", err.Error())
+						return
+					}
+					v4, id4, err := completeStart(dir, j.s, j.changed, 2)
+					hist = append(hist, fmt.Sprintf("complete start: c#=%s id=%s err=%v", v4, id4, err))
+					if err != nil {
+						fail("kill:start-fails-after-killed-start", err.Error())
+						return
+					}
+					if id3 != id1 || id4 != id1 {
+						fail("kill:device-id-changes", fmt.Sprintf("device id %q before, %q / %q after the killed start", id1, id3, id4))
+						return
+					}
+					n3, e3 := strconv.ParseInt(v3, 10, 64)
+					n4, e4 := strconv.ParseInt(v4, 10, 64)
+					switch {
+					case e3 != nil || e4 != nil:
+						fail("kill:version-not-a-number", fmt.Sprintf("version file %q / %q after the killed start", v3, v4))
+					case j.changed && n3 <= old:
+						fail("kill:c#-not-bumped-after-killed-start", fmt.Sprintf("the structure changed (S -> S') and the configuration number is still %d after the next complete start (it was %d with S): controllers never learn about the change", n3, old))
+					case j.changed && n3 > old+2:
+						fail("kill:c#-jumps", fmt.Sprintf("the configuration number went from %d to %d for one structural change", old, n3))
+					case !j.changed && n3 != old:
+						fail("kill:c#-bumped-without-structural-change", fmt.Sprintf("nothing structural changed and the configuration number went from %d to %d after a killed start", old, n3))
+					case n4 != n3:
+						fail("kill:c#-keeps-moving", fmt.Sprintf("the configuration number went from %d to %d on a restart without any change", n3, n4))
+					default:
+						r.Count("killed_start_histories_held", 1)
+					}
+				}()
+			}
+		}()
+	}
+	for i := range jobs {
+		ch <- i
+	}
+	close(ch)
+	wg.Wait()
+	if f := r.Counter("killed_start_child_failures"); f > 0 {
+		r.Inconclusive(fmt.Sprintf("killed starts: %d child processes failed otherwise than by the kill", f))
+	}
+	r.Floor("killed_starts", int(r.Counter("killed_starts")), n*2)
+	r.Floor("kill points", r.DistinctN("kill_point"), 3)
 }
